@@ -110,5 +110,12 @@ pub fn run(root: &Path) -> bool {
 			ok = false;
 		}
 	}
+	match super::resolve::selfcheck() {
+		Ok(c) => println!("selftest: resolution model reproduces the {c} examples of RFC 3986 5.4.1/5.4.2 OK"),
+		Err(e) => {
+			println!("selftest: FAIL {e}");
+			ok = false;
+		}
+	}
 	ok
 }
